@@ -24,6 +24,7 @@ from .c03_history import Reference, _quiet, DEFAULT_TIGHTEN
 
 PROP = "C12"
 TASK_TIMEOUT = 400
+RECYCLE_WORKERS = True  # every case starts in a fork of the pristine parent; references / twins in pristine grandchildren
 
 # |live - ref| <= RT * |ref|_inf + AT * (max |.| over outputs of the same component)
 RT, AT = 1e-8, 1e-10  # solver pairs / guesses / schedules, same tightened NLBGS tolerance both sides
@@ -267,6 +268,10 @@ def _jsonable_point(pt):
 
 
 def generate(seed, tier, opts):
+    return core.in_child(_generate, seed, tier, opts)
+
+
+def _generate(seed, tier, opts):
     rng, nprng = core.rngs(seed)
     kinds = opts.get("kinds") or ["C", "C", "C", "A", "A", "M", "S"]
     kind = rng.choice(kinds)
@@ -473,11 +478,13 @@ def execute(case, stop_at_first=True, collect=True, known=None):
                     violation("conservation", "%s:%s" % (what, n), err, scale, {"after": label})
 
     ref_cache = {}
+    server = core.PristineServer() if os.environ.get("VERIF_INPROC_REF") != "1" else None  # before anything is built here
+    res["_server"] = server
 
     def ref_outputs(spec_, point_):
         key = core.digest([spec_, point_])
         if key not in ref_cache:
-            r = Reference(spec_, tighten)
+            r = Reference(spec_, tighten, server=server)
             ref_cache[key] = r.get("p", point_, "out")["out"]
         return ref_cache[key]
 
@@ -494,9 +501,24 @@ def execute(case, stop_at_first=True, collect=True, known=None):
             raise HarnessError("kind %r" % kind)
     except HarnessError:
         raise
+    finally:
+        res.pop("_server", None)
+        if server is not None:
+            server.close()
     res["digest"] = log.hexdigest()
     res["log"] = log.lines if collect else []
     return res
+
+
+def _twin_outputs(spec1, atol, pt1):
+    """Single-point twin of one flight point, computed in a pristine grandchild."""
+    m1 = zoo.build(spec1)
+    zoo.tighten_coupled(m1, atol=atol)
+    m1.set_point(pt1)
+    st = _run(m1, {}, "single")
+    if st != "ok":
+        raise HarnessError("single-point twin did not converge")
+    return obs.read_outputs(m1.prob)
 
 
 def _to_point(p):
@@ -916,8 +938,6 @@ def _exec_multipoint(case, res, log, probe, violation, check_state, check_round_
         s1 = dict(spec)
         s1["npts"] = 1
         s1["first"] = j  # the twin takes flight point j's non-varied per-point values (Mach, speed of sound)
-        m1 = zoo.build(s1)
-        zoo.tighten_coupled(m1, atol=case["tighten"]["atol"])
         pt1 = {}
         import re
 
@@ -930,17 +950,17 @@ def _exec_multipoint(case, res, log, probe, violation, check_state, check_round_
                     pt1[mm.group(1) + "_0"] = v
             else:
                 pt1[k] = v
-        m1.set_point(pt1)
-        st = _run(m1, res, "single")
-        if st != "ok":
-            raise HarnessError("single-point twin did not converge")
-        single = obs.read_outputs(m1.prob)
+        server = res.get("_server")
+        if server is not None:
+            single = server.call(_twin_outputs, s1, case["tighten"]["atol"], pt1)
+        else:
+            single = _twin_outputs(s1, case["tighten"]["atol"], pt1)
         ref = {k: x for k, x in single.items() if k.startswith("AS_point_0.")}
         bad, worst = _cmp_outputs(final, ref, RT, AT, rename=lambda k: k.replace("AS_point_0.", "AS_point_%d." % j, 1))
         res["margin"] = max(res["margin"], worst)
         probe("single_point_twin_checked")
         for key, err, scale in bad[:2]:
-            violation("multipoint_vs_single", _where(m1.prob, key), err, scale, {"point": j, "key": key})
+            violation("multipoint_vs_single", _where(model.prob, key), err, scale, {"point": j, "key": key})
     check_round_trip(model, "multipoint")
     res["schedule_hash"] = core.digest([spec, [(e["point"], e["var"]) for e in edits]])
 
